@@ -420,6 +420,8 @@ class GeoMachine(Machine):
         check_core(geo, self.layers_fresh and not near_tie)
         if kind == 'SET_OPTION' and done[0] == 'order':
             pass      # recomputes the block name list only; the connection list is untouched
+        elif kind == 'REFINE' and isinstance(done, tuple) and done[0] == 'declined':
+            pass      # nothing was done, so nothing was recomputed either
         elif kind in REFRESHING:
             self.index_fresh = True
         elif kind == 'CHECK_FIX':
@@ -966,7 +968,7 @@ class GeoMachine(Machine):
     def op_REFINE(self, ch):
         geo = self.geo
         if any(len(c.node) not in (3, 4) for c in geo.columnlist):
-            return False
+            return self.refine_declined(ch)
         mode = ch[0] % 8
         bisect = (False, False, False, True, 'x', 'y', False, False)[mode]
         if geo.num_columns > 400:
@@ -986,6 +988,37 @@ class GeoMachine(Machine):
         self.call(lambda: geo.refine(arg, bisect=bisect, bisect_edge_columns=earg), 'refine')
         self.ctx.probes['refine_bisect_%s' % (bisect,)] += 1
         return (str(bisect), int(not cols), min(len(cols), 3))
+
+    def refine_declined(self, ch):
+        """refine() on a selection that contains or adjoins a column with more than four nodes is
+        declined (a printed message): nothing may have changed."""
+        geo = self.geo
+        poly = [c for c in geo.columnlist if len(c.node) > 4]
+        small = [c for c in geo.columnlist if len(c.node) in (3, 4) and
+                 any(len(x.node) > 4 for x in c.neighbour)]
+        pick = (poly + small)[ch[1] % len(poly + small)]
+        bisect = (False, False, True, 'x')[ch[0] % 4]
+        before = (tuple(n.name for n in geo.nodelist), tuple(c.name for c in geo.columnlist),
+                  tuple(tuple(n.name for n in c.node) for c in geo.columnlist),
+                  tuple(sorted(geo.connection)), tuple(geo.block_name_list))
+        self.call(lambda: geo.refine([pick], bisect=bisect), 'refine (to be declined)')
+        if geo.column.get(pick.name) is not pick:
+            # (a bisection whose sides do not touch the many-sided neighbour is carried out)
+            self.ctx.probes['refine_next_to_polygon_carried_out'] += 1
+            return ('carried out', str(bisect))
+        after = (tuple(n.name for n in geo.nodelist), tuple(c.name for c in geo.columnlist),
+                 tuple(tuple(n.name for n in c.node) for c in geo.columnlist),
+                 tuple(sorted(geo.connection)), tuple(geo.block_name_list))
+        for what, a, b in zip(('nodes', 'columns', 'column nodes', 'connections', 'block names'),
+                              before, after):
+            if a != b:
+                raise Violation('J1.refused', 'refine(bisect=%r) of column %r was declined (columns '
+                                'with more than 4 nodes) but changed the %s: %r -> %r'
+                                % (bisect, pick.name, what,
+                                   sorted(set(a) - set(b))[:3], sorted(set(b) - set(a))[:3]),
+                                key='refine-declined-bisect' if bisect else '-')
+        self.ctx.probes['refine_declined_bisect_%s' % (bisect,)] += 1
+        return ('declined', str(bisect))
 
     def op_REFINE_LAYERS(self, ch):
         geo = self.geo
